@@ -66,6 +66,9 @@ def handle (kind : String) (args : List String) (impl : String) : String :=
       let spS := if sp == "" then "" else s!"SPEC {sp} impl={impl}"
       if d == "" && spS == "" then "ok" else d ++ (if d != "" && spS != "" then " ; " else "") ++ spS
     | _, _, _ => "bad-op"
+  | "c14.demoted", [] =>
+    -- under the MASTER strategy no read is executed by a node that is a replica
+    if impl.startsWith "replica-reads=0/" then "ok" else s!"SPEC read-served-by-a-replica-under-the-MASTER-strategy impl={impl}"
   | "c14.flags", [st, fa, fb] =>
     -- reads go to the replicas of the owning master the cluster does not report as failed / without address / in handshake
     -- (its own suspicion "fail?" does not count), to the master when the strategy asks for it or no such replica is left
